@@ -298,11 +298,12 @@ def h_spec_in_accepts(I, fi, args, kwargs, node):
 def h_queued_in_range(I, fi, args, kwargs, node):
     from .deps_model import _dq_get
     q, lo, hi = args
-    items, hn = _dq_get(I, q)
+    cells, qlo, qhi, hn = _dq_get(I, q)
+    lo_, hi_ = zint(I.int_of(lo)), zint(I.int_of(hi))
     I.counter += 1
     j = z3.Int('qpos!%d' % I.counter)
-    return z3.ForAll([j], z3.Implies(z3.And(j >= 1, j < z3.Length(items)),
-                                       z3.And(items[j] >= zint(I.int_of(lo)), items[j] <= zint(I.int_of(hi)))))
+    return z3.ForAll([j], z3.Implies(z3.And(j >= zint(qlo) + 1, j < zint(qhi)),
+                                       z3.And(z3.Select(cells, j) >= lo_, z3.Select(cells, j) <= hi_)))
 
 
 @hook('spec.specfns.settings_header_of')
